@@ -78,10 +78,10 @@ def run():
     g = L.guard_edges(b, flag, True)
     expect(g and not L.dominated_by_cut(b, pushes(b), g), "guard dominance through a materialised `a && flag`")
     b = P.bodies[S + "::ip_guard"]
-    g0 = L.guard_edges(b, flag, True)
-    gi = L.guard_edges_ip(P, b, [(flag, True)])
+    g0 = L._guard_edges_local(b, [(flag, True)])
+    gi = L.guard_edges(b, flag, True)
     expect((not g0 or L.dominated_by_cut(b, pushes(b), g0)) and gi and not L.dominated_by_cut(b, pushes(b), gi),
-           "interprocedural guard: a check moved into a helper is found only by guard_edges_ip")
+           "interprocedural guard: a check moved into a helper is found by the (interprocedural) guard analysis only")
     b = P.bodies[S + "::try_guard"]
     g = L.guard_edges(b, L.is_call_to(S + "::rec_param"), True)
     expect(g and not L.dominated_by_cut(b, pushes(b), g), "guard dominance through `?` (Try::branch Continue arm)")
@@ -97,6 +97,25 @@ def run():
         comp = set(by.get(S + "::" + fn, []))
         g = c20.is_depth_guard(P, P.bodies[S + "::" + fn], comp) if comp else None
         expect((g[0] if g else None) == want, "depth-guard idiom: %s -> %s (got %s)" % (fn, want, g))
+    # transparent helpers (rules/inline.py): functions missing from rules/known_fns.txt are spliced into their callers
+    expect(not any("inl_helper" in i for i in P.bodies) and len(P.hidden) == 3, "transparent helpers are hidden from iteration (%s)" % sorted(P.hidden))
+    b = P.bodies[S + "::inl_caller"]
+    expect(bool(pushes(b)), "spliced helper: the push inside inl_helper_push is a site of inl_caller")
+    g = L.guard_edges(b, flag, True)
+    expect(bool(g) and bool(pushes(b)) and not L.dominated_by_cut(b, pushes(b), g),
+           "spliced helper: the push is dominated by the flag test made inside the `?`-helper")
+    g2 = L.guard_edges(b, lambda e: e[0] == "bin" and e[1] == "Gt" and L.is_field_read(S, "n")(e[3]) and e[2] == ("place", [2]), False)
+    expect(bool(g2), "spliced helper: the helper's parameter chases to the caller's argument (n > self.n with n = param 2)")
+    b = P.bodies[S + "::inl_caller_unguarded"]
+    g = L.guard_edges(b, flag, True)
+    expect(bool(pushes(b)) and (not g or L.dominated_by_cut(b, pushes(b), g)), "spliced helper: an unguarded spliced push is reported")
+    w, m, r = P.own_effects(b)
+    expect(any(x[0] == (S, "v") and x[1].endswith("::push") for x in m), "spliced helper: effects are attributed to the caller")
+    sccs = P.sccs()
+    by = {m_: c for c in sccs for m_ in c}
+    comp = set(by.get(S + "::inl_rec", []))
+    g = c20.is_depth_guard(P, P.bodies[S + "::inl_rec"], comp) if comp else None
+    expect(bool(comp) and (g[0] if g else None) == "counter", "spliced closure-taking guard helper: inl_rec is a depth guard (got %s, comp %s)" % (g, sorted(comp)))
     a = P.adts.get(S)
     expect(a is not None and [f["name"] for f in a["variants"][0]["fields"]] == ["v", "flag", "n", "depth"], "ADT facts: struct fields")
     expect(a is not None and a.get("auto", {}).get("send") is True, "auto-trait facts: S: Send")
